@@ -183,6 +183,19 @@ pub fn run() {
                     Ok(Ok(_)) => "ok".to_string(),
                     _ => "err".to_string(),
                 },
+                // the result of the TCP probe of a persistent instance's host (naming::sniffing reports it this way)
+                Some("probe") => {
+                    let i = instance_of(&ws[1..]);
+                    let cmd = NamingCmd::PerpetualHostSniffing {
+                        host: i.get_short_key(),
+                        service_keys: vec![skey(kv(&ws, "svc"))],
+                        success: kv(&ws, "ok") == "1",
+                    };
+                    match a.send(cmd).await {
+                        Ok(Ok(_)) => "ok".to_string(),
+                        _ => "err".to_string(),
+                    }
+                }
                 // the apply of a committed NamingRaftReq::RemoveInstance
                 Some("raftrm") => {
                     let i = instance_of(&ws[1..]);
